@@ -165,7 +165,7 @@ type c05Msg struct {
 
 type c05Scenario struct {
 	// policies
-	MTASTS        string   `json:"mtasts"`       // "", none, testing, enforce
+	MTASTS        string   `json:"mtasts"`       // "", none, testing, enforce, lost (the cache hands over no policy and no error: go-mtasts does when a fresh policy cannot be stored and nothing is cached)
 	MTASTSMatch   string   `json:"mtasts_match"` // which MX the policy lists: all mx1 mx2 other
 	DANE          bool     `json:"dane"`
 	DNSSEC        bool     `json:"dnssec"`
@@ -181,7 +181,7 @@ type c05Scenario struct {
 
 func c05Gen(t *rapid.T) c05Scenario {
 	sc := c05Scenario{
-		MTASTS:      rapid.SampledFrom([]string{"", "", "none", "testing", "enforce", "enforce"}).Draw(t, "mtasts"),
+		MTASTS:      rapid.SampledFrom([]string{"", "", "none", "testing", "enforce", "enforce", "lost"}).Draw(t, "mtasts"),
 		MTASTSMatch: rapid.SampledFrom([]string{"all", "all", "mx1", "mx2", "other"}).Draw(t, "mtasts_match"),
 		DANE:        rapid.Bool().Draw(t, "dane"), DNSSEC: rapid.Bool().Draw(t, "dnssec"),
 		MinTLS:        rapid.SampledFrom([]string{"", "none", "encrypted", "encrypted", "authenticated"}).Draw(t, "min_tls"),
@@ -247,7 +247,7 @@ func c05Allowed(sc c05Scenario, m c05Msg, i int, usedTLS bool) (bool, string) {
 	daneMatch := mx.TLSA == "ee-match" || (mx.TLSA == "ta-match" && mx.Kind == "valid")
 	daneAuth := daneUsable && daneMatch && usedTLS
 	mxLevel := 0 // none
-	if policies && sc.MTASTS != "" && sc.MTASTS != "none" && sc.mxMatchesSTS(i) {
+	if policies && sc.MTASTS != "" && sc.MTASTS != "none" && sc.MTASTS != "lost" && sc.mxMatchesSTS(i) {
 		mxLevel = 1 // mtasts
 	}
 	admx := sc.ADMX
@@ -491,6 +491,9 @@ func c05Run(sc c05Scenario) (vs []ev.V) {
 		p.mtastsGet = func(_ context.Context, domain string) (*mtasts.Policy, error) {
 			if sc.MTASTS == "none" {
 				return nil, mtasts.ErrNoPolicy
+			}
+			if sc.MTASTS == "lost" {
+				return nil, nil
 			}
 			pol := &mtasts.Policy{Mode: mtasts.ModeTesting, MaxAge: 3600}
 			if sc.MTASTS == "enforce" {
